@@ -53,6 +53,14 @@ class CustomizedPdb(Pdb):
             logger = getLogger(__name__)
             logger.exception('')
 
+    def emptyline(self) -> bool:
+        '''Override Cmd.emptyline() not to repeat the last command.
+
+        A blank command, e.g., ' ', would otherwise execute again the command
+        sent to the previous prompt of the trace.
+        '''
+        return False
+
     def get_stack(
         self, f: FrameType | None, t: TracebackType | None
     ) -> tuple[list[tuple[FrameType, int]], int]:
